@@ -22,7 +22,7 @@ try:
     p = os.path.join(d, 'Data.fs')
     db = ZODB.DB(FileStorage(p)); c = db.open(); r = c.root()
     r['a'] = PersistentMapping(v=0); transaction.commit()
-    r['a']['v'] = 1; transaction.commit()   # kept by the pack because of b
+    r['a']['v'] = 1; r['b'] = PersistentMapping(); transaction.commit()   # kept by the pack because of b
     r['a']['v'] = 2; transaction.commit(); X = r['a']._p_serial        # X: to be undone
     time.sleep(0.01); T = time.time()                                   # pack time after X
     orig = FileStoragePacker.copyToPacktime
